@@ -20,6 +20,7 @@ from anyio import CancelScope, create_task_group
 from asphalt.core import (
     Context,
     NoCurrentContext,
+    ResourceConflict,
     ResourceNotFound,
     context_teardown,
     current_context,
@@ -273,6 +274,8 @@ class H:
                 await self.svc(a[1], exp)
             elif op == "corrupt":
                 await self.corrupt(a[1])
+            elif op == "foreign_exit":
+                await self.foreign_exit(a[1], exp)
             elif op == "raise":
                 e = self.tag.make(a[1])
                 sim.log("raise", where="act", ctx=exp, exc=describe(e))
@@ -318,6 +321,47 @@ class H:
                 raise
 
         await owner.start_service_task(body, name, teardown_action=spec.get("action", "cancel"))
+
+    async def foreign_exit(self, spec: dict, exp: str | None) -> None:
+        """Misuse: a context entered by one task is left by another.  Whatever the library
+        makes of that (it raises), the task that attempted the exit must keep its *own*
+        current context - tasks never disturb each other's."""
+        sim = self.sim
+        if exp is None:
+            return
+        entered = anyio.Event()
+        done = anyio.Event()
+        box: dict[str, Any] = {}
+        h = self
+
+        async def a() -> None:
+            # (the owner entered it from inside a context of its own: what was current
+            # there before the entry differs from what is current in the other task)
+            async with Context() as mid:
+                h.know(mid, spec["cid"] + "m")
+                c = Context()
+                h.know(c, spec["cid"])
+                await c.__aenter__()
+                box["c"] = c
+                entered.set()
+                await done.wait()
+
+        async with create_task_group() as tg:
+            tg.start_soon(a, name="w:foreign_owner")
+            try:
+                await entered.wait()
+                await sim.pause(*spec.get("gap", (0, 0.0)))
+                before = self.cur()
+                res = "ok"
+                try:
+                    await box["c"].__aexit__(None, None, None)
+                except BaseException as e:
+                    if contains_cancel(e):
+                        raise
+                    res = type(e).__name__
+                sim.log("foreign_exit", before=before, after=self.cur(), exp=exp, res=res, closed=box["c"].closed)
+            finally:
+                done.set()
 
     async def corrupt_mid(self, spec: dict) -> None:
         """The parent's block is left while a child - entered and left in *another task* - is
@@ -529,7 +573,7 @@ class H:
         sim = self.sim
         self._cb_start(spec, cid, args)
         try:
-            await self.cb_steps(spec, cid)
+            await self.cb_steps(spec, cid, args)
         except BaseException as e:
             sim.log("cb_end", cb=spec["id"], ctx=cid, how="cancel" if is_cancel(e) else "raise", exc=describe(e))
             raise
@@ -540,14 +584,14 @@ class H:
         sim = self.sim
         self._cb_start(spec, cid, args)
         try:
-            self.cb_steps_sync(spec, cid)
+            self.cb_steps_sync(spec, cid, args)
         except BaseException as e:
             sim.log("cb_end", cb=spec["id"], ctx=cid, how="raise", exc=describe(e))
             raise
         else:
             sim.log("cb_end", cb=spec["id"], ctx=cid, how="return", exc=None)
 
-    async def cb_steps(self, spec: dict, cid: str) -> None:
+    async def cb_steps(self, spec: dict, cid: str, args: tuple = ()) -> None:
         sim = self.sim
         shield = bool(spec.get("shield"))
         for s in spec.get("body", ()):
@@ -578,8 +622,15 @@ class H:
                 sim.log("raise", where="cb", cb=spec["id"], exc=describe(e))
                 sim.fault("raise_in_callback")
                 raise e
+            elif op == "reraise":
+                # the callback raises the very exception object it was handed (the one that
+                # ended the block): still an exception raised by this callback
+                if args and isinstance(args[0], BaseException):
+                    sim.log("raise", where="cb", cb=spec["id"], exc=describe(args[0]), same=True)
+                    sim.fault("reraise_in_callback")
+                    raise args[0]
 
-    def cb_steps_sync(self, spec: dict, cid: str) -> None:
+    def cb_steps_sync(self, spec: dict, cid: str, args: tuple = ()) -> None:
         sim = self.sim
         for s in spec.get("body", ()):
             op = s[0]
@@ -590,6 +641,13 @@ class H:
                 sim.log("raise", where="cb", cb=spec["id"], exc=describe(e))
                 sim.fault("raise_in_callback")
                 raise e
+            elif op == "reraise":
+                # the callback raises the very exception object it was handed (the one that
+                # ended the block): still an exception raised by this callback
+                if args and isinstance(args[0], BaseException):
+                    sim.log("raise", where="cb", cb=spec["id"], exc=describe(args[0]), same=True)
+                    sim.fault("reraise_in_callback")
+                    raise args[0]
 
     def make_cb(self, spec: dict, cid: str) -> Any:
         kind = spec.get("kind", "sync")
@@ -613,6 +671,29 @@ class H:
             def f(*args: Any) -> Any:  # type: ignore[misc]
                 return Aw(self._abody(spec, cid, args))
 
+        wrap = spec.get("wrap")
+        if wrap:
+            # the callback is a callable *object* (no __name__ / __qualname__ of its own),
+            # or a functools.partial of one
+            if kind == "async":
+
+                class _ACb:
+                    async def __call__(self_, *args: Any) -> Any:
+                        return await f(*args)
+
+                obj: Any = _ACb()
+            else:
+
+                class _Cb:
+                    def __call__(self_, *args: Any) -> Any:
+                        return f(*args)
+
+                obj = _Cb()
+            if wrap == "partial":
+                import functools
+
+                obj = functools.partial(obj)
+            return obj
         return f
 
     def register_sync(self, spec: dict) -> None:
@@ -649,6 +730,22 @@ class H:
             else:
                 ctx.add_teardown_callback(f)
         self.sim.log("reg", ctx=cid, cb=spec["id"], route=route)
+        if spec.get("dup") and route in ("res", "modres"):
+            # the same name once more (or an invalid one): rejected, and the callback that
+            # came with the rejected call is not registered - it must never run
+            dspec = {"id": spec["id"] + "_dup", "kind": "sync", "body": []}
+            g = self.make_cb(dspec, cid)
+            nm = "r_" + spec["id"] if spec["dup"] == "conflict" else "bad name!"
+            try:
+                if route == "res":
+                    ctx.add_resource(Res(spec["id"] + "_dup"), nm, teardown_callback=g)
+                else:
+                    mod_add_resource(Res(spec["id"] + "_dup"), nm, teardown_callback=g)
+            except (ResourceConflict, ValueError) as e:
+                self.sim.log("reg_rejected", ctx=cid, cb=dspec["id"], exc=type(e).__name__)
+            else:
+                self.sim.log("reg", ctx=cid, cb=dspec["id"], route=route)
+                self.sim.log("note", what="duplicate_add_accepted", cb=dspec["id"])
 
     async def register(self, spec: dict) -> None:
         route = spec.get("route", "ctx")
@@ -683,7 +780,7 @@ class H:
                     exc = yield
                     h._cb_start(spec, cid, (exc,))
                     try:
-                        await h.cb_steps(spec, cid)
+                        await h.cb_steps(spec, cid, (exc,))
                     except BaseException as e:
                         sim.log("cb_end", cb=spec["id"], ctx=cid, how="cancel" if is_cancel(e) else "raise", exc=describe(e))
                         raise
@@ -700,7 +797,7 @@ class H:
                     exc = yield
                     h._cb_start(spec, cid, (exc,))
                     try:
-                        await h.cb_steps(spec, cid)
+                        await h.cb_steps(spec, cid, (exc,))
                     except BaseException as e:
                         sim.log("cb_end", cb=spec["id"], ctx=cid, how="cancel" if is_cancel(e) else "raise", exc=describe(e))
                         raise
@@ -899,6 +996,7 @@ def oracle(sim: Sim, plan: dict) -> list[dict]:
             if cb not in regs:
                 # callback of an operation that was rejected must never run
                 v("C13.effect", "rejected_cb_ran", f"callback {cb} ran although its registration was rejected")
+                v("C01.once", "rejected_ran", f"callback {cb} ran although the call that carried it was rejected (it was never registered)")
                 continue
             if "body_end" not in ev or ev["body_end"][0] > seq:
                 v("C01.early", "before_block_end", f"callback {cb} of {c} started before the block was left")
@@ -1139,6 +1237,14 @@ def oracle(sim: Sim, plan: dict) -> list[dict]:
                     v("C13.allowed", key, f"{op} on {c} in state {state} gave {res}, expected {want_res}")
                 if op == "add_resource" and res == "ok" and d.get("visible") is not True:
                     v("C13.effect", key, f"resource added to {c} in state {state} is not visible")
+        elif kind == "foreign_exit":
+            if d["before"] != d["exp"] or d["after"] != d["exp"]:
+                v(
+                    "C12.current",
+                    "foreign_exit",
+                    f"a task whose current context is {d['exp']} tried to leave a context entered by another task ({d['res']}): "
+                    f"its current_context() was {d['before']} before and {d['after']} after",
+                )
         elif kind == "leak_exit":
             if not d["reported"]:
                 root_failing = ctx_ev.get(d["ctx"], {}).get("ctx_new", (0, 0, 0, 0, 0, {}))[5].get("parent") is None and d["exc"] is not None
@@ -1217,6 +1323,10 @@ class G:
         spec["kind"] = kind
         if route == "res" and rng.random() < 0.4:
             spec["multi"] = True
+        if route in ("res", "modres") and rng.random() < 0.2:
+            spec["dup"] = rng.choice(("conflict", "conflict", "bad_name"))
+        if route in ("ctx", "mod", "res", "modres") and kind in ("sync", "async") and rng.random() < 0.12:
+            spec["wrap"] = rng.choice(("obj", "partial"))
         body: list = []
         is_async = kind != "sync"
         n = rng.randint(0, 3)
@@ -1232,6 +1342,9 @@ class G:
             del body[pos + 1 :]
             if rng.random() < 0.5:
                 body[pos + 1 :] = []
+        elif spec["pexc"] and rng.random() < 0.15:
+            # re-raises whatever it was handed (nothing after a clean exit)
+            body.append(["reraise"])
         spec["body"] = body
         if is_async and rng.random() < 0.25:
             spec["shield"] = True
@@ -1352,7 +1465,14 @@ def gen_c12(g: G) -> dict:
         out: list = []
         for _ in range(rng.randint(1, 4)):
             r = rng.random()
-            if r < 0.3:
+            if r < 0.04 and depth >= 1 and g.nctx < 10:
+                # misuse that must not disturb the task's own current context
+                g.nctx += 1
+                out.append(["foreign_exit", {"cid": f"x{g.nctx}", "gap": [rng.choice((0, 1)), rng.choice((0.0, 0.25))]}])
+            elif r < 0.08 and depth >= 1:
+                # rejected re-entry attempts (twice) of the context that is current here
+                out.append(["ops", ["enter", "enter"], None])
+            elif r < 0.3:
                 out.append(rpause(rng))
             elif r < 0.6 and depth < 4 and g.nctx < 10:
                 g.nctx += 1
